@@ -38,6 +38,11 @@ def build_cv(spec):
         return ExpandingWindowSplitter(**p)
     if kind == "single":
         return SingleWindowSplitter(**p)
+    if kind == "cutoff":
+        from sktime.forecasting.model_selection import CutoffSplitter
+        cs = p.pop("cutoffs")
+        import pandas as pd
+        return CutoffSplitter(np.array(cs) if sum(cs) % 2 else pd.Index(cs, dtype="int64"), **p)
     raise ValueError(kind)
 
 
@@ -167,6 +172,9 @@ def build_transformer(spec):
     if kind == "cos":
         from sktime.transformations.series.cos import CosineTransformer
         return CosineTransformer()
+    if kind == "hampel":
+        from sktime.transformations.series.outlier_detection import HampelFilter
+        return HampelFilter(**p)
     raise ValueError(kind)
 
 
